@@ -401,7 +401,8 @@ def lift(x, like=None):
     if isinstance(x, float):
         return GTensor([], X.as_expr(x), "float64")
     if isinstance(x, np.generic):
-        return lift(x.item())
+        t = lift(x.item())
+        return GTensor([], t.body, x.dtype.name)  # numpy scalars are strongly typed (NEP 50)
     if isinstance(x, np.ndarray):
         return from_numpy(x)
     if isinstance(x, (list, tuple)):
